@@ -1,9 +1,10 @@
 SPECIFICATION Spec
-CONSTANTS MaxLen = 6 CopyOnCompute = "each"
+CONSTANTS MaxLen = 6 Classes <- AllClasses CopyOnCompute = "each"
 INVARIANT Fresh
 INVARIANT NotTheStored
 INVARIANT ResultsStable
 INVARIANT SourceIntact
 INVARIANT YieldsLast
+INVARIANT ConfigIntact
 PROPERTY MutateIsLocal
 CHECK_DEADLOCK FALSE
